@@ -3,6 +3,7 @@ package main
 import (
 	"errors"
 	"fmt"
+	"os"
 	"regexp"
 	"strconv"
 	"strings"
@@ -25,8 +26,16 @@ type c07Input struct {
 	Value string `json:"value_hex,omitempty"`
 }
 
+// c07Hang is set once a guarded call did not return: the runaway goroutine
+// cannot be stopped (and may allocate without bound), so every later guarded
+// call is skipped and the generator stops right after recording the case.
+var c07Hang bool
+
 // c07Guard runs f, turning a panic into (2) and a hang into (4).
 func c07Guard(f func() hx.Sx) hx.Sx {
+	if c07Hang {
+		return hx.L(hx.I(4))
+	}
 	ch := make(chan hx.Sx, 1)
 	go func() {
 		defer func() {
@@ -39,8 +48,23 @@ func c07Guard(f func() hx.Sx) hx.Sx {
 	select {
 	case s := <-ch:
 		return s
-	case <-time.After(5 * time.Second):
+	case <-time.After(1 * time.Second):
+		c07Hang = true
 		return hx.L(hx.I(4))
+	}
+}
+
+// c07StopIfHung ends the run (with everything recorded so far, the hanging
+// input last) when the implementation did not come back from a call.
+func c07StopIfHung(o *hx.Out) {
+	if c07Hang {
+		o.Notes = append(o.Notes, "a call into the implementation did not return within 1s; run cut short after that case")
+		if err := o.Flush(); err != nil {
+			fmt.Fprintln(os.Stderr, "gen:", err)
+			os.Exit(3)
+		}
+		fmt.Printf("gen C07: %d cases (cut short: hang)\n", o.Len())
+		os.Exit(0)
 	}
 }
 
@@ -198,6 +222,7 @@ func c07Expr(o *hx.Out, q string, stream string) {
 	o.Count(fmt.Sprintf("%s filter_ok=%v proj_ok=%v", stream, fo, po))
 	o.Count(fmt.Sprintf("exprlen=%d", min(len(q)/4*4, 40)))
 	o.Add(c, c07Input{Kind: "expr", Expr: strconv.QuoteToASCII(q), ExprX: fmt.Sprintf("%x", q)}, "e"+q, fo || po)
+	c07StopIfHung(o)
 }
 
 // canonical quoting of the theorems: escape ", \ and every byte outside 0x20..0x7e as \xHH
@@ -274,7 +299,43 @@ func c07Quote(o *hx.Out, k, v string) {
 		hx.S(name), hx.List(cfgT), nf, hx.I(mall), np, hx.S(got))
 	o.Count(fmt.Sprintf("quote keylen=%d vallen=%d", len(k), len(v)))
 	o.Add(c, c07Input{Kind: "quote", Key: fmt.Sprintf("%x", k), Value: fmt.Sprintf("%x", v)}, "q"+k+"\x00"+v, len(k)+len(v) > 0)
+	c07StopIfHung(o)
 }
+
+// quoted words inside a value list and a fixed-order list (kind 3)
+func c07QList(o *hx.Out, k, v, v2 string) {
+	ck, cv, cv2 := c07Canon(k), c07Canon(v), c07Canon(v2)
+	gk, gv, gv2 := strconv.Quote(k), strconv.Quote(v), strconv.Quote(v2)
+	vl := func(a, b, c string) string { return a + ":(" + b + " OR " + c + ")" }
+	fx := func(a, b, c string) string { return a + "@(" + b + " " + c + ")" }
+	c := hx.L(hx.I(3), hx.S(k), hx.S(v), hx.S(v2), hx.S(ck), hx.S(cv), hx.S(cv2), hx.S(gk), hx.S(gv), hx.S(gv2),
+		c07ParseFilter(vl(ck, cv, cv2)), c07ParseFilter(vl(gk, gv, gv2)),
+		c07ParseProjection(fx(ck, cv, cv2)), c07ParseProjection(fx(gk, gv, gv2)))
+	o.Count("quoted-lists")
+	o.Add(c, c07Input{Kind: "quoted-lists", Key: fmt.Sprintf("%x", k), Value: fmt.Sprintf("%x|%x", v, v2)}, "l"+k+"\x00"+v+"\x00"+v2, true)
+	c07StopIfHung(o)
+}
+
+// bare (unquoted) words (kind 4): w:v as filter, w as projection, k@(w v)
+func c07Bare(o *hx.Out, w, v string) {
+	q := w + ":" + v
+	fo := c07ParseFilter(q)
+	c := hx.L(hx.I(4), hx.S(w), hx.S(v), c07Oracle(q), fo, c07ParseProjection(w), c07ParseProjection("k@("+w+" "+v+")"))
+	ok := fo.Text()[:2] == "(0"
+	o.Count(fmt.Sprintf("bare filter_ok=%v", ok))
+	o.Add(c, c07Input{Kind: "bare", Key: fmt.Sprintf("%x", w), Value: fmt.Sprintf("%x", v)}, "b"+w+"\x00"+v, ok)
+	c07StopIfHung(o)
+}
+
+// words that are keywords only when bare
+var c07Words = []string{"AND", "OR", "and", "ANDx", "or", "xOR", "AND OR", "-AND", "OR:"}
+
+// symbols of bare words: ASCII, letters whose UTF-8 encoding contains 0x85 / 0xA0
+// (à Å ą 入 Ġ), the spaces U+0085 U+00A0 U+2003 themselves, raw 0x85 0xA0 0xff 0xc3,
+// characters that are special only at the start, and the specials
+var c07BareSyms = []string{"a", "b", "7", ".", "=", "_", "à", "Å", "ą", "入", "Ġ", "é", "\u0085", "\u00a0", "\u2003",
+	"\x85", "\xa0", "\xff", "\xc3", "\xe5\x85", "-", "*", "/", "\"", "\\", "AND", "OR", "and", "ANDx", "x",
+	" ", "(", ")", ":", "@", ",", "\t"}
 
 var c07Alphabet = []string{"\"", "\\", " ", "(", ")", ":", "@", ",", "-", "*", "/", "a", "\xff", "é"}
 
@@ -362,7 +423,7 @@ func c07ValidProj(r *hx.Rng) string {
 }
 
 func genC07(o *hx.Out, r *hx.Rng, tier string, replay string) error {
-	o.Rule = "(a) the table of unicode.IsSpace over all runes; (b) quoting: every string up to a length bound over the alphabet {\" \\ space ( ) : @ , - * / a 0xff é} as key (with a random value) and as value (with a random key), quoted canonically and by strconv.Quote, parsed as filter key:value and as projection, then matched / projected on a result holding the string; (c) expressions: grammar-generated valid filters and projections, token soup from a piece list (escapes, regexps, operators, Unicode spaces, semantic corner keys) with byte noise. non-trivial = parses as filter or projection (expressions), non-empty string (quoting)"
+	o.Rule = "(d) quoted AND/OR/and/ANDx... as key, value, in value lists, as projection key and in fixed-order lists; (e) bare words over ASCII, letters whose UTF-8 contains 0x85/0xA0, U+0085/U+00A0/U+2003, raw 0x85/0xA0/0xff and the special characters, as key, value, projection key and fixed-list member; " + "(a) the table of unicode.IsSpace over all runes; (b) quoting: every string up to a length bound over the alphabet {\" \\ space ( ) : @ , - * / a 0xff é} as key (with a random value) and as value (with a random key), quoted canonically and by strconv.Quote, parsed as filter key:value and as projection, then matched / projected on a result holding the string; (c) expressions: grammar-generated valid filters and projections, token soup from a piece list (escapes, regexps, operators, Unicode spaces, semantic corner keys) with byte noise. non-trivial = parses as filter or projection (expressions), non-empty string (quoting)"
 	// (a) IsSpace table
 	var sp []hx.Sx
 	for c := rune(0); c <= unicode.MaxRune; c++ {
@@ -401,6 +462,52 @@ func genC07(o *hx.Out, r *hx.Rng, tier string, replay string) error {
 			}
 		}
 		return s
+	}
+	// the words AND / OR (and near misses) quoted, in every position
+	for _, a := range c07Words {
+		for _, b := range c07Words {
+			c07Quote(o, a, b)
+			c07QList(o, a, b, c07Words[r.Intn(len(c07Words))])
+			c07QList(o, c07Words[r.Intn(len(c07Words))], a, b)
+		}
+		c07Quote(o, a, all[r.Intn(len(all))])
+		c07Quote(o, all[r.Intn(len(all))], a)
+	}
+	for i := 0; i < nrand/4; i++ {
+		pick := func() string {
+			if r.Chance(0.4) {
+				return c07Words[r.Intn(len(c07Words))]
+			}
+			return randStr()
+		}
+		c07QList(o, pick(), pick(), pick())
+	}
+	// bare words
+	nbare := 1500
+	if tier == "thorough" {
+		nbare = 30000
+	}
+	bare := func() string {
+		n := r.Range(1, 4)
+		s := ""
+		for i := 0; i < n; i++ {
+			// mostly word-safe symbols (the first 24), sometimes a special
+			if r.Chance(0.9) {
+				s += c07BareSyms[r.Intn(24)]
+			} else {
+				s += c07BareSyms[r.Intn(len(c07BareSyms))]
+			}
+		}
+		return s
+	}
+	for _, a := range c07BareSyms {
+		c07Bare(o, a, "v")
+		c07Bare(o, "k", a)
+		c07Bare(o, "x"+a, "y"+a+"z")
+		c07Bare(o, a+"x", a+a)
+	}
+	for i := 0; i < nbare; i++ {
+		c07Bare(o, bare(), bare())
 	}
 	for _, s := range all {
 		c07Quote(o, s, all[r.Intn(len(all))])
